@@ -279,7 +279,9 @@ LockTimeout(mm, e, r, k) ==
                    IN Check(ma, ~Bit(r.tf, TF_MS) \/ Ms(e) - r.ms >= r.to - 1, "C05", "timeout-early-ms", e,
                             [rid |-> r.id, waited_ms |-> Ms(e) - r.ms, timeout_ms |-> r.to])
               ELSE mm
-    IN DropFromWq(m1, k, r.id)
+        \* "... unless it is granted or cancelled first": a request that already has its answer draws no TIMEOUT
+        m2 == Check(m1, r.st # "done", "C05", "timeout-after-answer", e, [rid |-> r.id, t |-> e.t])
+    IN DropFromWq(m2, k, r.id)
 
 StepLockReply(mm, e, r, k) ==
     IF e.res = EXPRIED /\ r.st = "done"
